@@ -8,7 +8,14 @@ using namespace jsoncons;
 
 struct Obs { bool ok = false; std::string err; json j; ojson oj; bool ordered = false; };
 
-static json_options mk(bool c, bool t, int L) { json_options o; o.allow_comments(c).allow_trailing_comma(t).max_nesting_depth(L); return o; }
+static int g_mode = 0;   // decode-option mode (jconv.hpp matches_text_value): 1 lossless_number, 2 lossless_bignum off, 4 nan / inf strings
+template <class O> static O with_mode(O o) {
+    if (g_mode & 1) o.lossless_number(true);
+    if (g_mode & 2) o.lossless_bignum(false);
+    if (g_mode & 4) { using S = typename O::string_type; auto W = [](const char* s) { S r; for (; *s; ++s) r.push_back((typename O::char_type)*s); return r; }; o.nan_to_str(W("NaN")).inf_to_str(W("Inf")).neginf_to_str(W("-Inf")); }
+    return o;
+}
+static json_options mk(bool c, bool t, int L) { json_options o; o.allow_comments(c).allow_trailing_comma(t).max_nesting_depth(L); return with_mode(o); }
 
 static Obs via_parse(const std::string& s, const json_options& o) {
     Obs r; try { r.j = json::parse(s, o); r.ok = true; } catch (const ser_error& e) { r.err = e.code().message(); } return r;
@@ -69,7 +76,7 @@ static J narrow(const WJ& w) {
     }
 }
 using wjson_options_t = basic_json_options<wchar_t>;
-static wjson_options_t wmk(bool c, bool t, int L) { wjson_options_t o; o.allow_comments(c).allow_trailing_comma(t).max_nesting_depth(L); return o; }
+static wjson_options_t wmk(bool c, bool t, int L) { wjson_options_t o; o.allow_comments(c).allow_trailing_comma(t).max_nesting_depth(L); return with_mode(o); }
 static Obs via_wparse(const std::wstring& s, const wjson_options_t& o) {
     Obs r; try { wjson w = wjson::parse(s, o); r.j = narrow<wjson, json>(w); r.ok = true; } catch (const ser_error& e) { r.err = e.code().message(); } return r;
 }
@@ -109,7 +116,10 @@ int main(int argc, char** argv) {
         ++ncases; if (acc) ++nacc; if (dc) ++ndc;
         std::vector<int> limits = {1024, dep};
         if (dep > 0) limits.push_back(dep - 1);
-        for (int oc = 0; oc < 2; ++oc) for (int ot = 0; ot < 2; ++ot) for (int L : limits) {
+        static const int modes[] = {0, 1, 2, 4, 7};
+        for (int mode : modes) for (int oc = 0; oc < 2; ++oc) for (int ot = 0; ot < 2; ++ot) for (int L : limits) {
+            if (mode != 0 && (oc != 0 || ot != 0 || L != 1024)) continue;       // the decode-option modes run with the other options at their defaults
+            g_mode = mode;
             bool expect = acc && (!uc || oc) && (!ut || ot) && dep <= L;
             bool care = !dc && !(tc && oc);
             json_options o = mk(oc, ot, L);
@@ -124,13 +134,13 @@ int main(int argc, char** argv) {
                 bool bad = false; const char* what = "verdict";
                 if (r.ok != expect) bad = true;
                 else if (r.ok) {
-                    bool m = r.ordered ? jc::matches_text_value(r.oj, c["v"], true, why) : jc::matches_text_value(r.j, c["v"], false, why);
+                    bool m = r.ordered ? jc::matches_text_value(r.oj, c["v"], true, why, mode) : jc::matches_text_value(r.j, c["v"], false, why, mode);
                     if (!m) { bad = true; what = "value"; }
                 }
                 if (bad) {
                     mj::Value m = hz::rec("mismatch");
                     m.set("idx", (int64_t)idx); m.set("entry", en.name); m.set("what", what);
-                    m.set("comments", (bool)oc); m.set("trailing", (bool)ot); m.set("limit", L);
+                    m.set("comments", (bool)oc); m.set("trailing", (bool)ot); m.set("limit", L); m.set("mode", mode);
                     m.set("expect", expect ? "accept" : "reject"); m.set("observed", r.ok ? "accept" : "reject");
                     m.set("err", r.err); m.set("why", why);
                     if (r.ok) m.set("got", r.ordered ? jc::project(r.oj) : jc::project(r.j));
